@@ -55,12 +55,14 @@ def unary_templates(level="std"):
     T.append(_calc("e", lambda p: ("sub", A, ("lit", p.fresh("k"))), "a"))
     if level == "full":
         T.append(_calc("e", lambda p: ("mul", ("ref", "d"), ("lit", 3)), "d"))
+        T.append(_calc("c", lambda p: ("add", A, B), "ab"))
         T.append(_calc("d", lambda p: ("mul", B, ("lit", -2)), "b"))
 
     def projs():
         out = []
         out.append(("proj -a", lambda cols: "a" in cols, lambda ch, p, cols: ("proj", ch, tuple(sorted(cols - {"a"})))))
         out.append(("proj -b", lambda cols: "b" in cols, lambda ch, p, cols: ("proj", ch, tuple(sorted(cols - {"b"})))))
+        out.append(("proj -c", lambda cols: "c" in cols and len(cols) > 1, lambda ch, p, cols: ("proj", ch, tuple(sorted(cols - {"c"})))))
         out.append(("proj -d", lambda cols: "d" in cols, lambda ch, p, cols: ("proj", ch, tuple(sorted(cols - {"d"})))))
         out.append(("proj a", lambda cols: "a" in cols and len(cols) > 1, lambda ch, p, cols: ("proj", ch, ("a",))))
         out.append(("proj all", lambda cols: True, lambda ch, p, cols: ("proj", ch, tuple(sorted(cols)))))
